@@ -8,7 +8,11 @@ Property theorems about the model `St4sd.Repeat` (Model/Repeat.lean) of `Repeati
 Every theorem quantifies over ALL histories `h : List Op`: arbitrary interleavings of the engine's atomic
 sub-steps with the environment operations (producers finished, new output, external kill, kill-delay timer,
 long wait), arbitrary task outcomes (success / failure / the task generator raises).
-`exec cfg h` is the state reached from `init cfg` by `h`.
+`exec cfg h` is the state reached from `init cfg` by `h`.  `cfg.prods` is the observer's LIST of producer instances
+(`job.producerInstances`: any number of entries, each of the observer's stage or of an earlier one, repeating or
+not, several entries for one component); `Ev.out c` is output of component `c`.  Clause 1 is proved for every such
+list: `no_exec_before_consume`, `launch_implies_output_of_every_same_stage_producer`,
+`no_launch_while_a_same_stage_producer_has_no_output`.
 
 The second part is about the model `St4sd.RepeatSub` (Model/RepeatSub.lean) of the subscription in
 `ComponentState.stageIn` that decides WHEN `notify_all_producers_finished` is called, for all lists of producer
